@@ -388,8 +388,15 @@ def compute_diff_from_snakes(a: "Seq[V]", b: "Seq[V]", snakes: "Seq[T3]", path: 
         entry_check(di._diff == at_head(di._diff) + di._diff[len(at_head(di._diff)):])
         entry_hint(fold1(a, b, diffit, at_head(di._diff), di._diff[len(at_head(di._diff)):]))
         entry_hint(fold2(a, b, diffit, at_head(di._diff), di._diff[len(at_head(di._diff)):]))
+        # stepping stones for pref_eq: the kept items before i0 and the inserted items are (pointwise) the next items of b
+        entry_check(all(a[rtake(a, at_head(di._diff)):i0][u] == b[len(rout(a, at_head(di._diff))) + u]
+                        for u in range(i0 - rtake(a, at_head(di._diff)))))
+        entry_check(pref_eq(rout(a, at_head(di._diff)) + a[rtake(a, at_head(di._diff)):i0], b))
+        entry_check(all(b[j0:j][u] == b[j0 + u] for u in range(j - j0)))
+        entry_check(pref_eq(rout(a, at_head(di._diff)) + a[rtake(a, at_head(di._diff)):i0] + b[j0:j], b))
         entry_check(0 <= rtake(a, di._diff) and rtake(a, di._diff) <= i)
         entry_check(len(rout(a, di._diff)) + i - rtake(a, di._diff) == j)
+        entry_check(pref_eq(rout(a, di._diff), b))
         invariant(0 <= k and i + k <= len(a) and j + k <= len(b))
         invariant(0 <= rtake(a, di._diff) and rtake(a, di._diff) <= i + k)
         invariant(len(rout(a, di._diff)) + i + k - rtake(a, di._diff) == j + k)
@@ -403,3 +410,9 @@ def compute_diff_from_snakes(a: "Seq[V]", b: "Seq[V]", snakes: "Seq[T3]", path: 
         finally_check(di._diff == at_head(di._diff) + di._diff[len(at_head(di._diff)):])
         finally_hint(fold1(a, b, diffit, at_head(di._diff), di._diff[len(at_head(di._diff)):]))
         finally_check(a[i + k] == b[j + k] or len(di._diff) > len(at_head(di._diff)))
+        finally_check(all(a[rtake(a, at_head(di._diff)):i + k][u] == b[len(rout(a, at_head(di._diff))) + u]
+                          for u in range(i + k - rtake(a, at_head(di._diff)))))
+        finally_check(pref_eq(rout(a, at_head(di._diff)) + a[rtake(a, at_head(di._diff)):i + k], b))
+        finally_check(implies(len(cd) > 0, apply_v(aval, cd) == b[j + k]))
+        finally_check(implies(len(cd) > 0, pref_eq(rout(a, at_head(di._diff)) + a[rtake(a, at_head(di._diff)):i + k] + [apply_v(aval, cd)], b)))
+        finally_check(pref_eq(rout(a, di._diff), b))
